@@ -176,6 +176,40 @@ inline void shape_into(ShapeBuilder &sb, int base, int n, int shape) {
             }
             break;
         }
+        case 14: {  // degree-stratified: a few hubs (joined to each other), many anchors each carrying private triangles (one or two:
+                    // a bow-tie forces the anchor into every greedy feedback set), hubs adjacent to random subsets of anchors, and
+                    // "ear" vertices closing a triangle over two hubs. Greedy order: hubs, then anchors, gadget vertices never -
+                    // the chosen set has internal edges and chosen vertices whose whole neighbourhood is chosen.
+            int h = pick(2, 4);
+            int ears = coin(50) ? pick(1, 2) : 0;
+            int tri = coin(80) ? 2 : 1;
+            int per = 1 + 2 * tri;
+            int a = (n - h - ears) / per;
+            if (a < 1) { for (int i = 0; i < n && n >= 3; i++) sb.add(V(i), V((i + 1) % n)); break; }
+            if (a > 14 && coin(70)) a = pick(4, 14);
+            static const int pp[] = {50, 75, 100};
+            int php = pp[pick(0, 2)], pha = pp[pick(0, 2)];
+            for (int i = 0; i < h; i++) for (int j = i + 1; j < h; j++) if (coin(php)) sb.add(V(i), V(j));
+            int next = h;
+            for (int k = 0; k < a; k++) {
+                int anchor = next++;
+                bool any = false;
+                for (int i = 0; i < h; i++) if (coin(pha)) { sb.add(V(i), V(anchor)); any = true; }
+                if (!any) sb.add(V(pick(0, h - 1)), V(anchor));
+                for (int t = 0; t < tri; t++) {
+                    int x = next++, y = next++;
+                    sb.add(V(anchor), V(x)); sb.add(V(anchor), V(y)); sb.add(V(x), V(y));
+                }
+            }
+            for (int e = 0; e < ears; e++) {
+                int v = next++;
+                int i = pick(0, h - 1), j = pick(0, h - 2);
+                if (j >= i) j++;
+                sb.add(V(v), V(i)); sb.add(V(v), V(j));
+            }
+            while (next < n) { int v = next++; if (coin(50)) sb.add(V(v), V(pick(0, v - 1))); }
+            break;
+        }
         case 11: {  // complete graph
             for (int i = 0; i < n; i++) for (int j = i + 1; j < n; j++) sb.add(V(i), V(j));
             break;
@@ -354,7 +388,7 @@ inline GraphSpec gen_graph_raw(const GenOpts &o, WDom dom) {
         int remaining = total_n - base;
         if (remaining <= 0) break;
         int np = (p == parts - 1) ? remaining : pick(0, remaining);
-        static const int shape_tab[] = {0, 0, 0, 1, 1, 1, 1, 1, 2, 3, 3, 4, 4, 5, 5, 5, 6, 6, 7, 7, 8, 8, 9, 10, 10, 11, 11, 12, 12, 12, 13, 13, 13};
+        static const int shape_tab[] = {0, 0, 0, 1, 1, 1, 1, 1, 2, 3, 3, 4, 4, 5, 5, 5, 6, 6, 7, 7, 8, 8, 9, 10, 10, 11, 11, 12, 12, 12, 13, 13, 13, 14, 14, 14};
         int shape = shape_tab[pick(0, (int) (sizeof shape_tab / sizeof shape_tab[0]) - 1)];
         if (!o.dense_ok && (shape == 11)) shape = 0;
         shape_into(sb, base, np, shape);
